@@ -40,58 +40,56 @@ type Codec struct {
 // ---------------------------------------------------------------------------------------------
 // declared-bound index
 
+// verifMsgpIndex is the table of declared bounds of ALL registered packages (one test binary holds them all), keyed by the
+// Go import path, so that bounds of types nested from other covered packages are known by value too.
 type verifMsgpIndex struct {
-	pkgPath string
-	field   map[string]*msgpmon.Bound // "Struct.Field"
-	named   map[string]*msgpmon.Bound // "Type"
+	pkgs  map[string]string         // Go import path -> repo path, for registered packages
+	field map[string]*msgpmon.Bound // "importpath.Struct.Field"
+	named map[string]*msgpmon.Bound // "importpath.Type"
 }
 
 var (
-	verifMsgpIxMu sync.Mutex
-	verifMsgpIx   = map[*msgpmon.Package]*verifMsgpIndex{}
+	verifMsgpIxOnce sync.Once
+	verifMsgpIx     *verifMsgpIndex
 )
 
-func verifMsgpIndexOf(p *msgpmon.Package) *verifMsgpIndex {
-	verifMsgpIxMu.Lock()
-	defer verifMsgpIxMu.Unlock()
-	if ix := verifMsgpIx[p]; ix != nil {
-		return ix
-	}
-	ix := verifMsgpMakeIndex(p)
-	verifMsgpIx[p] = ix
-	return ix
+func verifMsgpIndexOf(_ *msgpmon.Package) *verifMsgpIndex {
+	verifMsgpIxOnce.Do(func() {
+		ix := &verifMsgpIndex{pkgs: map[string]string{}, field: map[string]*msgpmon.Bound{}, named: map[string]*msgpmon.Bound{}}
+		for _, p := range msgpmon.Packages() {
+			if len(p.Types) == 0 {
+				continue
+			}
+			ip := reflect.TypeOf(p.Types[0].New()).Elem().PkgPath()
+			ix.pkgs[ip] = p.Path
+			for i := range p.Bounds {
+				b := &p.Bounds[i]
+				if b.Eval != nil {
+					b.Bounds, b.MaxTotal = b.Eval() // at test time: several bounds are variables set by other packages' init
+				}
+				if b.Named != "" {
+					ix.named[ip+"."+b.Named] = b
+				} else {
+					ix.field[ip+"."+b.Struct+"."+b.Field] = b
+				}
+			}
+		}
+		verifMsgpIx = ix
+	})
+	return verifMsgpIx
 }
 
-func verifMsgpMakeIndex(p *msgpmon.Package) *verifMsgpIndex {
-	ix := &verifMsgpIndex{field: map[string]*msgpmon.Bound{}, named: map[string]*msgpmon.Bound{}}
-	if len(p.Types) > 0 {
-		ix.pkgPath = reflect.TypeOf(p.Types[0].New()).Elem().PkgPath()
-	}
-	for i := range p.Bounds {
-		b := &p.Bounds[i]
-		if b.Eval != nil {
-			b.Bounds, b.MaxTotal = b.Eval()
-		}
-		if b.Named != "" {
-			ix.named[b.Named] = b
-		} else {
-			ix.field[b.Struct+"."+b.Field] = b
-		}
-	}
-	return ix
-}
-
-// site returns the declared bounds applying to a value of type t found in field f of struct st (either may be absent).
-// inherited is what a parent slice handed down (Bounds[1:]).
+// lookup returns the declared bounds applying to a value of type t found in field f of struct st (either may be absent);
+// inherited is what a parent slice handed down (Bounds[1:]). src names the declaring site ("repo/path.Type" or "repo/path.Struct.Field").
 func (ix *verifMsgpIndex) lookup(st reflect.Type, f *reflect.StructField, t reflect.Type, inherited []int64) (bounds []int64, maxTotal int64, src string) {
-	if t.PkgPath() == ix.pkgPath && t.Name() != "" {
-		if b := ix.named[t.Name()]; b != nil {
-			return b.Bounds, 0, t.Name()
+	if t.Name() != "" {
+		if b := ix.named[t.PkgPath()+"."+t.Name()]; b != nil {
+			return b.Bounds, 0, ix.pkgs[t.PkgPath()] + "." + t.Name()
 		}
 	}
-	if f != nil && st != nil && st.PkgPath() == ix.pkgPath {
-		if b := ix.field[st.Name()+"."+f.Name]; b != nil {
-			return b.Bounds, b.MaxTotal, st.Name() + "." + f.Name
+	if f != nil && st != nil {
+		if b := ix.field[st.PkgPath()+"."+st.Name()+"."+f.Name]; b != nil {
+			return b.Bounds, b.MaxTotal, ix.pkgs[st.PkgPath()] + "." + st.Name() + "." + f.Name
 		}
 	}
 	if len(inherited) > 0 {
@@ -397,7 +395,7 @@ func (g *verifMsgpGen) length(v reflect.Value, st reflect.Type, f *reflect.Struc
 	if len(bounds) > 0 {
 		bound, known = bounds[0], true
 	}
-	if !known && st != nil && st.PkgPath() != g.ix.pkgPath && verifMsgpTagBounded(f) {
+	if !known && st != nil && g.ix.pkgs[st.PkgPath()] == "" && verifMsgpTagBounded(f) {
 		g.note("foreign-bounded")
 		return g.r.Intn(2)
 	}
